@@ -161,7 +161,7 @@ def step (s : Unit) : List String → Unit × String
     match parseInt? b, parseInt? w, steps.mapM parsePair? with
     | some b, some w, some script =>
       if b ≤ 0 ∨ w ≤ 0 then (s, "bad-op") else
-      let (evs, out) := passthrough b script
+      let (evs, out) := passthrough b w.toNat script
       match out with
       | .ok _ => (s, s!"{join (sortStrs (evs.filterMap (showREv false)))} ok")
       | .err => (s, s!"{join (sortStrs (evs.filterMap (showREv false)))} err")
